@@ -470,6 +470,7 @@ impl<E: Effect, R: CommandReceiver<E>, S: EventSender<E>> Worker<E, R, S> {
         let result_value = process.result.take().unwrap().unwrap();
         process.stack.push(result_value);
         process.frames.push(Frame::new(function_index, 0, 0));
+        process.session_frame = true;
 
         // Update the cached function index for REPL references
         self.executor.set_process_function_index(id, function_index);
